@@ -16,15 +16,76 @@ import tempfile
 from core import Raw, sx
 
 ID = "C02"
-READY = False
+READY = True
 LEAN_MODULES = ["RedunModel.Props.C02"]
 LEAN_DRIVERS = ["C02"]
-THEOREMS = []
-TRUSTED = []
-ASSUMPTIONS = []
-RULE = ""
-LEVEL_TEXT = ""
-LEVEL_NOTE = ""
+THEOREMS = [
+    "RedunModel.C02.cacheSound_preserved",
+    "RedunModel.C02.fresh_den",
+    "RedunModel.C02.full_validity",
+    "RedunModel.C02.cached_eq_fresh",
+    "RedunModel.C02.tableProg_bodyOk",
+    "RedunModel.C02.tableProg_cfp",
+    "RedunModel.C02.tableProg_worldFree",
+    "RedunModel.C02.full_validity_table",
+    "RedunModel.C02.refuted_catch",
+    "RedunModel.C02.refuted_simple_expr",
+    "RedunModel.C02.refuted_cse_twin",
+    "RedunModel.CacheHist.den_det",
+    "RedunModel.CacheHist.eval_sound",
+]
+TRUSTED = [
+    "hashes are symbolic: a task hash is the pair (name, version) - `version` stands for the version= string or the source text "
+    "(C17: equal hash, equal body); an eval hash is (task hash, argument value) (C15, one positional argument); a File hash is "
+    "(path, stamp) with stamp = the (size, mtime) pair; SHA collisions are outside the claim",
+    "modelled, not verified: sqlite returns what was written (Evaluation upsert, CallNode insert-if-absent, newest current "
+    "CallNode first); pickling a single reduction preserves task names, argument values, File hashes and Task hashes; a "
+    "deserialized Task with an explicit version= re-computes its hash from its own pickled version (is_valid cannot fail)",
+    "the model evaluates sequentially, depth first; the harness makes the real scheduler call task functions in that order by "
+    "completing, among the in-flight jobs, the one that is first in depth-first order of the job tree (a job another job "
+    "collapsed onto takes the earlier position; Job.collapse is wrapped for this observation). Which failed jobs still had "
+    "their rejection processed before the event loop stopped is observed on the real run (a wrapper around "
+    "Scheduler._reject_job_main_thread) and given to the model as a scheduling fact; the theorems hold for every such set",
+    "the theorems are about the code with the two committed repairs (SimpleExpression validity, subtree tasks of a "
+    "CSE-served job); the harness probes the tree for both defects and the model mirrors the tree it is compared with",
+]
+ASSUMPTIONS = [
+    "workflows: 3-6 tasks t0..tn of one argument (int tasks, file-reading tasks, recover tasks); a body is an expression built "
+    "from the argument, constants, lazy `+`, calls of tasks with a larger index (so evaluation terminates), File(path) "
+    "constructed in the body, catch(expr, ErrorClass, recover_task), or an unconditional raise of ValueError/KeyError/"
+    "ZeroDivisionError; values are ints, Files and the caught exception; one root call t0(arg) per execution",
+    "edits between executions: new body (new source text / new version string), revert to an earlier body or version, version "
+    "bump with unchanged body, check_valid full<->shallow (hash unchanged), input file rewritten or restored with explicitly "
+    "set mtime (distinct stamp <-> distinct content), root argument change. A task with an explicit version= changes its body "
+    "only together with the version string (redun's contract for version=)",
+    "check_valid='shallow' tasks are generated only in workflows where no body stats a file (shallow validity skips "
+    "intermediate values by design; the theorem has the same hypothesis: WorldFree or no shallow task)",
+    "bodies observe the file system only through File(path) objects that they pass on (no hidden reads): BodyOk",
+    "local in-process execution, default scheduler options (cache=True), no limits, no context, no handles",
+]
+RULE = ("one case = one history of 2-6 (quick) / 2-10 (thorough) executions on one sqlite backend with generated edits in between "
+        "(fixed corpus first: the F1 catch witness, the stale-File-under-lazy-add witness, the shallow-over-CSE-twin witness, "
+        "edit/revert/bump, errors not replayed). Every execution is run on the shared backend, on an empty backend (oracle) and "
+        "by the Lean model; compared: outcome (value or error class) and the exact sequence of (task, version, argument) for "
+        "which the task function was called. distinct = distinct history specs; a history is non-trivial when it has >= 2 "
+        "executions (all are)")
+LEVEL_TEXT = ("Proved in Lean for ALL programs (arbitrary body table keyed by task hash), ALL histories of executions with arbitrary "
+              "edits in between (each execution carries its registry, check_valid options, file system, root expression), unbounded: "
+              "the backend invariant CacheSound (`Inv`: every Evaluation entry keyed by (task hash, argument) is what the body with "
+              "that hash returns on that argument wherever the entry is still valid; every successful CallNode is the meaning of its "
+              "call under every registry that holds its recorded subtree tasks; the CSE view is right for the running execution) is "
+              "preserved by every evaluation step (`eval_sound`, `cacheSound_preserved`), hence every execution returns the "
+              "denotation under the current code (`full_validity`) = the result on an empty backend (`cached_eq_fresh`, "
+              "`fresh_den`, `den_det`) - full strength for programs without catch's private cache (catch-free, or the reference "
+              "design noCatchCache) and with shallow tasks only over world-independent bodies; `tableProg_*` discharge the hypotheses "
+              "for the generated workflow family (`full_validity_table`). `refuted_catch` is the closed witness of DESIGN F1 on the "
+              "model of the current code (known finding); `refuted_simple_expr`, `refuted_cse_twin` are the witnesses of the two "
+              "repaired defects on the model of the code as found. Tie: generated histories on the real scheduler vs the model "
+              "(outcome + exact call sequence) and vs a fresh backend.")
+LEVEL_NOTE = ("partial: catch's private caching is outside the full theorem (refuted as implemented); the theorems speak of the sequential "
+              "depth-first evaluation order (the real scheduler is driven into that order; schedule independence is C07); termination "
+              "is not claimed (fuel: `cached_eq_fresh` says the results agree whenever the empty-backend run ends). Not modelled: "
+              "cache_scope / cache=False options, containers other than lazy `+`, several arguments (C15), executors, pickling.")
 TECHNIQUE = "Lean 4 proof on a cache-history model + differential histories against the real scheduler and a fresh backend"
 
 ERR = {0: "ValueError", 1: "KeyError", 2: "ZeroDivisionError"}
@@ -543,9 +604,8 @@ def classify(row):
     return "C02-stale-result"
 
 
-def check_history(ctx, hist, flags, label, tags, rows):
+def check_history(ctx, hist, flags, label, tags, rows, witness=None):
     case = dict(label=label, history=hist.to_json(), flags=flags)
-    nhit = sum(1 for r in rows if r["log"].count("(") < r["model_log"].count("(") + 10**9 and r["log"] == "")
     ctx.case(key=json.dumps(hist.to_json(), sort_keys=True), sample=dict(label=label, steps=[dict(edits=r["edits"], real=r["real"], called=r["log"]) for r in rows][:4]),
              steps=len(rows), **tags)
     for r in rows:
@@ -553,6 +613,8 @@ def check_history(ctx, hist, flags, label, tags, rows):
         ctx.count("calls_per_step", min(r["log"].count("("), 9))
         for e in r["edits"]:
             ctx.count("edit", e[0])
+        if r["real"] != r["fresh"] and classify(r) == witness:
+            continue                      # accounted once for the whole witness history below
         if r["real"] != r["fresh"]:
             ctx.violation(classify(r),
                           "execution %d of the history returns %s on the shared backend, %s on a fresh backend" % (r["step"], r["real"], r["fresh"]),
@@ -562,6 +624,11 @@ def check_history(ctx, hist, flags, label, tags, rows):
         elif r["model_log"] != r["log"]:
             ctx.mismatch("task functions called in execution %d differ from the model" % r["step"], case=dict(case, step=r["step"], rows=rows),
                          model=r["model_log"], impl=r["log"])
+    if witness is not None:
+        hit = [r for r in rows if r["real"] != r["fresh"] and classify(r) == witness]
+        ctx.expect_known(witness, bool(hit), case=dict(case, step=hit[0]["step"] if hit else None),
+                         what=("execution %d returns %s on the shared backend, %s on a fresh backend" %
+                               (hit[0]["step"], hit[0]["real"], hit[0]["fresh"])) if hit else witness)
     return rows
 
 
@@ -659,7 +726,8 @@ def run(ctx):
                 break
         replies = ctx.model("C02", [q for _, h, _, _ in done for q in requests(h, flags)])
         for k, (label, h, tags, rows) in enumerate(done):
-            check_history(ctx, h, flags, label, tags, add_model(rows, replies[4 * k: 4 * k + 4]))
+            check_history(ctx, h, flags, label, tags, add_model(rows, replies[4 * k: 4 * k + 4]),
+                          witness=SIG_CATCH if label == "corpus:catch-edit-caught-task" else None)
     finally:
         env.close()
 
